@@ -182,6 +182,20 @@ def run(prog, R):
     R.premises(prog, "C15.3-unit-table-premise", ["C10:C10.1-"], "a number directly followed by a unit is split into number + identifier by the same unit table that validation and the AST accessor use")
     import scanners
     scanners.exponent_markers(prog, R, "C15.3-exponent-markers")
+    scanners.string_scanners_agree(prog, R, "C15.3-string-scanners-agree")
+    # block comments: the opener is two characters; its `*` is consumed before the nesting loop starts (otherwise
+    # `/*/` closes itself and the comment body is lexed as ordinary tokens)
+    bcm = R.anchor(prog, "oq3_lexer::Cursor::block_comment")
+    if bcm:
+        loops = bcm.natural_loops()
+        dom = bcm.dominators()
+        okb, det = False, "no loop found"
+        if loops:
+            h, blocks = loops[0]
+            pre = [bi for bi, t in bcm.calls() if (bcm.callee_of(t) or "").endswith("Cursor::bump") and bi in dom[h] and bi not in blocks]
+            okb = len(pre) == 1
+            det = f"{len(pre)} bump(s) dominate the loop header bb{h} from outside the loop (expected exactly one: the opener's `*`)"
+        R.ob("C15.4-block-comment-opener", "the `*` of `/*` is consumed before the nesting loop", okb, bcm.at, det)
     # ---- C15.3 sibling numeric arms
     if at:
         ps, _ = paths(prog, at.npath, 50000)
